@@ -6,10 +6,75 @@ Engine E2 (proptest, rs/harness/props.rs) + E3 (libFuzzer `decoders` target, sam
   0x80.. after OIDs, valid TLVs).  Messages: whole v1/v2c/v3 requests and responses with (a) bytes appended after the
   top-level message, (b) one inner declared length raised past the end of its parent by 1..300.
 Oracle (metamorphic): from_ber(x || s) = (s, value(from_ber(x))); (a) and (b) must be rejected.
+E1 part (Hypothesis, live DES / AES sessions): a reply whose encrypted payload ends 1..15 octets before the scoped PDU it
+declares, after 0..2 earlier exchanges, must be refused (the decoders behind decrypt() are not reachable from E2).
 """
 from checks import rsutil
+from vlib import agent as ag
+from vlib import core, drivers, gen
+from vlib import refber as rb
 
 LEVEL = "exploration"
+
+
+# ---- E1 part: the decoders behind the *decrypted* scoped PDU (reachable only through a privacy session) -------------------
+def build_live(u):
+    cfg = gen.g_cfg(u, versions=("v3",), need_priv=True)
+    cfg.priv = "aes" if u.below(4) else "des"
+    return {"cfg": cfg, "vlen": u.range(0, 60), "cut": u.range(1, 15), "warm": u.range(0, 2), "fill": u.u8() | 1}
+
+
+def describe_live(c):
+    return {"_stage": "live", "_cfg": gen.cfg_to_json(c["cfg"]), "cfg": c["cfg"].describe(), "vlen": c["vlen"], "cut": c["cut"], "warm": c["warm"], "fill": c["fill"]}
+
+
+def execute_live(G, c):
+    """A reply whose encrypted payload ends `cut` octets before the scoped PDU it declares does: every nested length is
+    consistent with its parent, only the octets are not there.  It must be refused - whatever the cipher's working area
+    still holds from earlier messages is not part of the element."""
+    cfg = c["cfg"]
+    link = ag.NbLink()
+    try:
+        cl = drivers.NbClient(G, cfg, link)
+        oid = "1.3.6.1.2.1.1.5.0"
+        name = rb.enc_oid((1, 3, 6, 1, 2, 1, 1, 5, 0))
+        for i in range(c["warm"]):
+            # earlier traffic leaves octets in the buffers
+            cl.send("get", oid)
+            req = ag.decode_request(cfg, link.recv_all()[0], strict=False)
+            link.send(ag.build_reply(cfg, req, [rb.varbind(name, rb.tlv(rb.T_OCTETS, bytes([c["fill"]]) * (40 + 7 * i)))]))
+            cl.recv("get")
+        cl.send("get", oid)
+        req = ag.decode_request(cfg, link.recv_all()[0], strict=False)
+        value = bytes((c["fill"] + k) & 0xFF for k in range(c["vlen"]))
+        p = rb.pdu(rb.PDU_RESPONSE, req["request_id"], 0, 0, [rb.varbind(name, rb.tlv(rb.T_OCTETS, value))])
+        sc = rb.scoped_pdu(req["engine_id"], b"", p)
+        cut = min(c["cut"], len(sc) - 4)
+        short = sc[:-cut]
+        if cfg.priv == "des":
+            short = short[:len(short) // 8 * 8]  # DES-CBC carries whole blocks only
+            cut = len(sc) - len(short)
+        link.send(ag.build_reply(cfg, req, [], raw_scoped=short, pad_bytes=b""))
+        try:
+            r = cl.recv("get")
+        except (BlockingIOError, G.SnmpError):
+            return cut
+        raise core.Failure("truncated-element-completed:" + cfg.priv,
+                           "%s: the encrypted payload carries %d of the %d octets its scoped PDU declares, yet get() returned %r (sent value %r)"
+                           % (cfg.describe(), len(short), len(sc), r, value))
+    finally:
+        link.close()
+
+
+def run_live(rep, tier):
+    G = drivers.load()
+
+    def body(c):
+        cut = execute_live(G, c)
+        rep.case(("live", c["cfg"].describe(), c["vlen"], c["cut"], c["warm"]), True,
+                 classes=["live:priv:" + c["cfg"].priv, "live:warm:%d" % c["warm"], "live:cut:%s" % ("<8" if cut < 8 else ">=8")])
+
+    return core.run_hypothesis(rep, gen.case_strategy(build_live, 256), body, 600 if tier == "quick" else 20000, describe=describe_live)
 
 
 def run(rep, tier):
@@ -18,11 +83,21 @@ def run(rep, tier):
     rep.assumptions = ["independent encoder rs/harness/refenc.rs", "only real containers are attacked (OCTET STRING payloads are opaque)"]
     rsutil.run_rs_part(rep, tier, "C16", required=True)
     if not rep.violations:
+        run_live(rep, tier)
+    if not rep.violations:
         from checks import fuzzutil
         fuzzutil.run_fuzz_part(rep, tier, "C16")
 
 
 def replay(rep, case, body=None):
+    if isinstance(case, dict) and case.get("_stage") == "live":
+        G = drivers.load()
+        c = {"cfg": gen.cfg_from_json(case["_cfg"]), "vlen": case["vlen"], "cut": case["cut"], "warm": case["warm"], "fill": case["fill"]}
+        try:
+            execute_live(G, c)
+        except core.Failure as f:
+            rep.violation(f.signature, case, f.message)
+        return
     if isinstance(case, dict) and case.get("engine") == "E3":
         from checks import fuzzutil
         fuzzutil.replay_input(rep, "C16", case)
